@@ -85,7 +85,7 @@ def add_canary(text):
     return text.replace(marker, CANARY + marker, 1)
 
 
-def vacuity_variant(g):
+def vacuity_variant(g, wave='body'):
     """assert(false) at the start of every extracted fn body and loop body; all must FAIL."""
     lines = g['text'].split('\n')
     origins = g['origins']
@@ -106,9 +106,11 @@ def vacuity_variant(g):
             ln = text.count('\n', 0, toks[it.h0].start) + 1
             if 'fn' in head[:4] and ln in src_lines and not ({'spec', 'proof'} & set(head[:4])):
                 name = head[head.index('fn') + 1] + '@%d' % ln
-                inserts.append((toks[it.open_i].end, 'vac.%s.body' % name))
-                for n, (kw, op, cl) in enumerate(G.find_loops(toks, it.open_i + 1, it.close_i), 1):
-                    inserts.append((toks[op].end, 'vac.%s.loop%d' % (name, n)))
+                if wave == 'body':
+                    inserts.append((toks[it.open_i].end, 'vac.%s.body' % name))
+                else:
+                    for n, (kw, op, cl) in enumerate(G.find_loops(toks, it.open_i + 1, it.close_i), 1):
+                        inserts.append((toks[op].end, 'vac.%s.loop%d' % (name, n)))
             elif head[:1] in (['impl'], ['trait'], ['mod']) or 'impl' in head[:2] or 'trait' in head[:2]:
                 walk(it.open_i + 1, it.close_i)
     # only walk inside verus! { ... }
@@ -277,11 +279,16 @@ def run_verus_unit(uid, cfg, tier='quick', quiet=True):
         res['reason'] = 'no obligations generated'
     else:
         res['status'] = 'pass'
-    # vacuity run (only when main run is pass: otherwise pointless)
+    # vacuity runs (only when main run is pass): wave 1 = fn bodies, wave 2 = loop bodies (separate files, because a failed
+    # assert(false) is assumed afterwards and would mask later points of a function whose loops are not isolated)
     if res['status'] == 'pass' and not cfg.get('skip_vacuity'):
-        vt, points = vacuity_variant(g)
-        if vt:
-            vpath = os.path.join(BUILD, uid + '_vac.rs')
+        import concurrent.futures as _cf
+
+        def one(wave):
+            vt, points = vacuity_variant(g, wave)
+            if not vt or not points:
+                return wave, [], [], False
+            vpath = os.path.join(BUILD, '%s_vac_%s.rs' % (uid, wave))
             open(vpath, 'w').write(vt)
             vcmd = ['verus', vpath, '--output-json', '--multiple-errors', '50', '--error-format=json', '--triggers-mode', 'silent',
                     '--rlimit', str(rlimit), '--num-threads', str(cfg.get('threads', 4))]
@@ -290,20 +297,24 @@ def run_verus_unit(uid, cfg, tier='quick', quiet=True):
             hit = set()
             for d in parse_diags(se2):
                 if d.get('level') == 'error' and d['message'].startswith('assertion failed'):
-                    for s in d['spans']:
-                        m = re.search(r'/\*(vac[^*]+)\*/', vlines[s['line_start'] - 1][max(0, s['column_start'] - 1):])
+                    for sp in d['spans']:
+                        m = re.search(r'/\*(vac[^*]+)\*/', vlines[sp['line_start'] - 1][max(0, sp['column_start'] - 1):])
                         if m:
                             hit.add(m.group(1))
-            missing = [p for p in points if p not in hit]
             if '"verified"' not in so2:
                 to2 = True
-            res['vacuity'] = {'points': len(points), 'reachable': len(points) - len(missing), 'unreachable': missing,
-                              'timed_out': to2}
-            if to2:
-                res['vacuity']['note'] = 'vacuity run timed out; not counted'
-            elif missing:
-                res['status'] = 'undecided'
-                res['reason'] = 'vacuous contract: assert(false) verifies at %s' % missing
+            return wave, points, [p for p in points if p not in hit], to2
+        with _cf.ThreadPoolExecutor(max_workers=2) as ex:
+            outs = list(ex.map(one, ['body', 'loops']))
+        points = sum(len(o[1]) for o in outs)
+        missing = [p for o in outs for p in o[2]]
+        timed = any(o[3] for o in outs)
+        res['vacuity'] = {'points': points, 'reachable': points - len(missing), 'unreachable': missing, 'timed_out': timed}
+        if timed:
+            res['vacuity']['note'] = 'vacuity run timed out or did not verify; not counted'
+        elif missing:
+            res['status'] = 'undecided'
+            res['reason'] = 'vacuous contract: assert(false) verifies at %s' % missing
     res['time_s'] = time.time() - t0
     return res
 
